@@ -272,6 +272,7 @@ package xy
 //@   floats real
 //@   lemmas mulCancel, mulCancel2, mulNonneg, mulMono
 //@   requires strideOf(layout) >= 2 && whole(len(ring), strideOf(layout)) && cnt(len(ring), strideOf(layout)) >= 4
+//@   ensures [assumed-deterministic] res == rccV(cells(ring), off(ring), strideOf(layout), len(ring))
 //@   ensures [local] res <==> rccTurn(cells(ring), off(ring), rccPrev(cells(ring), off(ring), strideOf(layout), len(ring) - strideOf(layout), topIdx(cells(ring), off(ring), strideOf(layout), cnt(len(ring), strideOf(layout)) - 1), topIdx(cells(ring), off(ring), strideOf(layout), cnt(len(ring), strideOf(layout)) - 1)), topIdx(cells(ring), off(ring), strideOf(layout), cnt(len(ring), strideOf(layout)) - 1), rccNext(cells(ring), off(ring), strideOf(layout), len(ring) - strideOf(layout), topIdx(cells(ring), off(ring), strideOf(layout), cnt(len(ring), strideOf(layout)) - 1), topIdx(cells(ring), off(ring), strideOf(layout), cnt(len(ring), strideOf(layout)) - 1)))
 //@   modifies nothing
 //@   decreases *
@@ -304,7 +305,7 @@ package xy
 //@   requires calc.stride >= 2 && calc.stride == strideOf(calc.layout) && whole(len(pts), calc.stride) && cnt(len(pts), calc.stride) >= 4
 //@   requires len(calc.basePt) >= 2 && len(calc.centSum) >= 2 && len(calc.cg3) >= 2 && len(calc.triangleCent3) >= 2
 //@   requires base(calc.cg3) != base(calc.triangleCent3) && base(calc.cg3) != base(calc.centSum) && base(calc.centSum) != base(calc.triangleCent3) && base(calc.basePt) != base(calc.cg3) && base(calc.basePt) != base(calc.triangleCent3) && base(calc.basePt) != base(calc.centSum) && base(pts) != base(calc.cg3) && base(pts) != base(calc.triangleCent3) && base(pts) != base(calc.centSum)
-//@   ensures [fan] (calc.areasum2 == old(calc.areasum2) + fanA(cells(pts), off(pts), calc.stride, calc.basePt[0], calc.basePt[1], cnt(len(pts), calc.stride) - 1) && calc.cg3[0] == old(calc.cg3[0]) + fanC(cells(pts), off(pts), calc.stride, calc.basePt[0], calc.basePt[1], 0, cnt(len(pts), calc.stride) - 1) && calc.cg3[1] == old(calc.cg3[1]) + fanC(cells(pts), off(pts), calc.stride, calc.basePt[0], calc.basePt[1], 1, cnt(len(pts), calc.stride) - 1)) || (calc.areasum2 == old(calc.areasum2) - fanA(cells(pts), off(pts), calc.stride, calc.basePt[0], calc.basePt[1], cnt(len(pts), calc.stride) - 1) && calc.cg3[0] == old(calc.cg3[0]) - fanC(cells(pts), off(pts), calc.stride, calc.basePt[0], calc.basePt[1], 0, cnt(len(pts), calc.stride) - 1) && calc.cg3[1] == old(calc.cg3[1]) - fanC(cells(pts), off(pts), calc.stride, calc.basePt[0], calc.basePt[1], 1, cnt(len(pts), calc.stride) - 1))
+//@   ensures [fan] calc.areasum2 == old(calc.areasum2) + (rccV(cells(pts), off(pts), calc.stride, len(pts)) ? 1.0 : 0.0 - 1.0) * fanA(cells(pts), off(pts), calc.stride, calc.basePt[0], calc.basePt[1], cnt(len(pts), calc.stride) - 1) && calc.cg3[0] == old(calc.cg3[0]) + (rccV(cells(pts), off(pts), calc.stride, len(pts)) ? 1.0 : 0.0 - 1.0) * fanC(cells(pts), off(pts), calc.stride, calc.basePt[0], calc.basePt[1], 0, cnt(len(pts), calc.stride) - 1) && calc.cg3[1] == old(calc.cg3[1]) + (rccV(cells(pts), off(pts), calc.stride, len(pts)) ? 1.0 : 0.0 - 1.0) * fanC(cells(pts), off(pts), calc.stride, calc.basePt[0], calc.basePt[1], 1, cnt(len(pts), calc.stride) - 1)
 //@   ensures calc.totalLength == old(calc.totalLength) + lsum(cells(pts), off(pts), calc.stride, cnt(len(pts), calc.stride) - 1)
 //@   ensures calc.stride == old(calc.stride) && calc.layout == old(calc.layout) && calc.centSum == old(calc.centSum) && calc.cg3 == old(calc.cg3) && calc.triangleCent3 == old(calc.triangleCent3) && calc.basePt == old(calc.basePt)
 //@   modifies *calc, calc.cg3[0:2], calc.triangleCent3[0:2], calc.centSum[0:2]
@@ -329,7 +330,7 @@ package xy
 //@   requires calc.stride >= 2 && calc.stride == strideOf(calc.layout) && whole(len(pts), calc.stride) && cnt(len(pts), calc.stride) >= 4
 //@   requires len(calc.basePt) >= 2 && len(calc.centSum) >= 2 && len(calc.cg3) >= 2 && len(calc.triangleCent3) >= 2
 //@   requires base(calc.cg3) != base(calc.triangleCent3) && base(calc.cg3) != base(calc.centSum) && base(calc.centSum) != base(calc.triangleCent3) && base(calc.basePt) != base(calc.cg3) && base(calc.basePt) != base(calc.triangleCent3) && base(calc.basePt) != base(calc.centSum) && base(pts) != base(calc.cg3) && base(pts) != base(calc.triangleCent3) && base(pts) != base(calc.centSum)
-//@   ensures [fan] (calc.areasum2 == old(calc.areasum2) + fanA(cells(pts), off(pts), calc.stride, calc.basePt[0], calc.basePt[1], cnt(len(pts), calc.stride) - 1) && calc.cg3[0] == old(calc.cg3[0]) + fanC(cells(pts), off(pts), calc.stride, calc.basePt[0], calc.basePt[1], 0, cnt(len(pts), calc.stride) - 1) && calc.cg3[1] == old(calc.cg3[1]) + fanC(cells(pts), off(pts), calc.stride, calc.basePt[0], calc.basePt[1], 1, cnt(len(pts), calc.stride) - 1)) || (calc.areasum2 == old(calc.areasum2) - fanA(cells(pts), off(pts), calc.stride, calc.basePt[0], calc.basePt[1], cnt(len(pts), calc.stride) - 1) && calc.cg3[0] == old(calc.cg3[0]) - fanC(cells(pts), off(pts), calc.stride, calc.basePt[0], calc.basePt[1], 0, cnt(len(pts), calc.stride) - 1) && calc.cg3[1] == old(calc.cg3[1]) - fanC(cells(pts), off(pts), calc.stride, calc.basePt[0], calc.basePt[1], 1, cnt(len(pts), calc.stride) - 1))
+//@   ensures [fan] calc.areasum2 == old(calc.areasum2) + (rccV(cells(pts), off(pts), calc.stride, len(pts)) ? 0.0 - 1.0 : 1.0) * fanA(cells(pts), off(pts), calc.stride, calc.basePt[0], calc.basePt[1], cnt(len(pts), calc.stride) - 1) && calc.cg3[0] == old(calc.cg3[0]) + (rccV(cells(pts), off(pts), calc.stride, len(pts)) ? 0.0 - 1.0 : 1.0) * fanC(cells(pts), off(pts), calc.stride, calc.basePt[0], calc.basePt[1], 0, cnt(len(pts), calc.stride) - 1) && calc.cg3[1] == old(calc.cg3[1]) + (rccV(cells(pts), off(pts), calc.stride, len(pts)) ? 0.0 - 1.0 : 1.0) * fanC(cells(pts), off(pts), calc.stride, calc.basePt[0], calc.basePt[1], 1, cnt(len(pts), calc.stride) - 1)
 //@   ensures calc.totalLength == old(calc.totalLength) + lsum(cells(pts), off(pts), calc.stride, cnt(len(pts), calc.stride) - 1)
 //@   ensures calc.stride == old(calc.stride) && calc.layout == old(calc.layout) && calc.centSum == old(calc.centSum) && calc.cg3 == old(calc.cg3) && calc.triangleCent3 == old(calc.triangleCent3) && calc.basePt == old(calc.basePt)
 //@   modifies *calc, calc.cg3[0:2], calc.triangleCent3[0:2], calc.centSum[0:2]
